@@ -381,8 +381,10 @@ func (it *Interp) callFunction(fn *ssa.Function, args []Value, bindings []Value,
 	if h, ok := it.P.lookupIntrinsic(fn, name); ok {
 		return h(it, args)
 	}
-	if ov, ok := it.P.Overrides[name]; ok {
-		return it.callFunction(ov, args, nil, site)
+	if it.R != nil && it.R.Fn != nil && it.R.Fn.Pkg != nil {
+		if ov := it.P.override(name, it.R.Fn.Pkg.Pkg.Path()); ov != nil {
+			return it.callFunction(ov, args, nil, site)
+		}
 	}
 	it.P.noteFunc(it.R, fn)
 	if fn.Blocks == nil {
